@@ -833,8 +833,8 @@ pub fn main(tier: Tier, seed: u64) -> Report {
     if !regress.is_empty() {
         runner::run_cases(&mut rep, "regress-mpsc", regress, run_mpsc);
     }
-    runner::run_generated(&mut rep, "port", tier.pick(5000, 150_000), || strategy(tier), run_port);
-    runner::run_generated(&mut rep, "mpsc", tier.pick(3000, 80_000), || mstrategy(tier), run_mpsc);
+    runner::run_generated(&mut rep, "port", tier.pick(20_000, 150_000), || strategy(tier), run_port);
+    runner::run_generated(&mut rep, "mpsc", tier.pick(12_000, 80_000), || mstrategy(tier), run_mpsc);
     rep
 }
 
